@@ -45,7 +45,6 @@
 package interp // import "golang.org/x/tools/go/ssa/interp"
 
 import (
-	"strings"
 	"fmt"
 	"go/token"
 	"go/types"
@@ -53,6 +52,7 @@ import (
 	"os"
 	"runtime"
 	"slices"
+	"strings"
 	"sync/atomic"
 	_ "unsafe"
 
@@ -93,6 +93,7 @@ type interpreter struct {
 	ptrSeq             map[*value]int         // first-use-as-map-key order of pointers (deterministic iteration)
 	jsonHeap           []jsonEntry            // modelled json.Marshal results
 	syncMaps           map[*value]*[]smEntry  // modelled sync.Map contents
+	sc                 *sched                 // cooperative goroutine scheduler (sched.go)
 }
 
 type deferred struct {
@@ -202,7 +203,13 @@ func visitInstr(fr *frame, instr ssa.Instruction) continuation {
 		// no-op
 
 	case *ssa.UnOp:
-		fr.env[instr] = unop(instr, fr.get(instr.X))
+		x := fr.get(instr.X)
+		if instr.Op == token.ARROW {
+			if ch, ok := x.(*mchan); ok && ch != nil {
+				fr.i.block("channel receive at "+fr.i.prog.Fset.Position(instr.Pos()).String(), func() bool { return len(ch.buf) > 0 || ch.closed })
+			}
+		}
+		fr.env[instr] = unop(instr, x)
 
 	case *ssa.BinOp:
 		fr.env[instr] = binop(instr.Op, instr.X.Type(), fr.get(instr.X), fr.get(instr.Y))
@@ -334,9 +341,8 @@ func visitInstr(fr *frame, instr ssa.Instruction) continuation {
 	case *ssa.Go:
 		fn, args := prepareCall(fr, &instr.Call)
 		_ = atomic.AddInt32
-		if fr.i.ex != nil && fr.i.ex.S.InlineGo {
-			// stated per harness: `go f()` runs f to completion at the go statement
-			call(fr.i, fr, instr.Pos(), fn, args)
+		if fr.i.ex != nil {
+			fr.i.spawn(fr, instr.Pos(), fn, args) // cooperative scheduler (sched.go); eager unless the session says lazy
 		} else {
 			unsupported("go statement at %s (no scheduler model)", fr.i.prog.Fset.Position(instr.Pos()))
 		}
@@ -492,6 +498,21 @@ func visitInstr(fr *frame, instr ssa.Instruction) continuation {
 		chosen := -1
 		var recv value
 		recvOk := false
+		selReady := func() bool {
+			for _, st := range instr.States {
+				ch, _ := fr.get(st.Chan).(*mchan)
+				if ch == nil {
+					continue
+				}
+				if st.Dir != types.RecvOnly || len(ch.buf) > 0 || ch.closed {
+					return true
+				}
+			}
+			return false
+		}
+		if instr.Blocking {
+			fr.i.block("select at "+fr.i.prog.Fset.Position(instr.Pos()).String(), selReady)
+		}
 		for k, st := range instr.States {
 			ch, _ := fr.get(st.Chan).(*mchan)
 			if ch == nil {
@@ -734,6 +755,9 @@ func runFrame(fr *frame) {
 		if fr.i.mode&DisableRecover != 0 {
 			return // let interpreter crash
 		}
+		if fr.i.sc != nil && fr.i.sc.killed {
+			return // the path is over: unwind without running any interpreted code
+		}
 		fr.panicking = true
 		fr.panic = recover()
 		if ex := fr.i.ex; ex != nil && ex.panicWhere == "" {
@@ -935,7 +959,6 @@ func Interpret(mainpkg *ssa.Package, mode Mode, sizes types.Sizes, filename stri
 	}
 	return
 }
-
 
 func frameChain(fr *frame) string {
 	var parts []string
